@@ -55,7 +55,8 @@ fn fwd(op: &Op, _ctx: &dyn Context, operands: &mut dyn CoordinateSet) -> usize {
     let H = F * t0.powf(B);
     let G = (F - 1.0 / F) / 2.0;
     let gamma_0 = (alpha.sin() / D).asin();
-    let lambda_0 = lonc - (G * gamma_0.tan()).asin() / B;
+    // G·tan(gamma_0) is +-1 for alpha = 90: keep rounding from pushing it out of asin's domain
+    let lambda_0 = lonc - (G * gamma_0.tan()).clamp(-1.0, 1.0).asin() / B;
 
     // (uc, vc): Intermediate coordinates of the projection center
     // let vc = 0.0;
@@ -150,7 +151,8 @@ fn inv(op: &Op, _ctx: &dyn Context, operands: &mut dyn CoordinateSet) -> usize {
     let H = F * t0.powf(B);
     let G = (F - 1.0 / F) / 2.0;
     let gamma_0 = (alpha.sin() / D).asin();
-    let lambda_0 = lonc - (G * gamma_0.tan()).asin() / B;
+    // G·tan(gamma_0) is +-1 for alpha = 90: keep rounding from pushing it out of asin's domain
+    let lambda_0 = lonc - (G * gamma_0.tan()).clamp(-1.0, 1.0).asin() / B;
 
     // (uc, vc): Intermediate coordinates of the projection center
     // let vc = 0.0;
